@@ -166,7 +166,7 @@ func lookupDistances(target, dest boson.Address) (pos []int32) {
 
 func inArray(bin uint8, pos []int32) bool {
 	for _, v := range pos {
-		if bin == uint8(v) {
+		if int32(bin) == v {
 			return true
 		}
 	}
